@@ -45,8 +45,27 @@ def full_key(c):
 
 
 def clean_antecedent(s):
-    from eyecite.utils import strip_punct  # shared normaliser (trusted, see DESIGN §8)
-    return strip_punct(s)
+    """Reference model of the antecedent normaliser (the Penn-Treebank-style punctuation stripping the
+    property is anchored in), written out here so that the oracle does not move with the code under test:
+    quotes, brackets, ', ; : @ # $ % & ? !', '...' and '--' go; of the periods only ONE at the very end of
+    the string goes (with closing brackets/quotes after it) - 'N.L.R.B.' becomes 'N.L.R.B', never 'NLRB'."""
+    t = s
+    if t[:1] in ("\"", "'"):
+        t = t[1:]
+    t = t.replace("``", "")
+    t = re.sub(r'[ (\[{<]"', "", t)
+    t = t.replace("...", "")
+    t = "".join(ch for ch in t if ch not in ",;:@#$%&")
+    m = re.search(r'([^.])\.[\])}>"\']*\s*$', t)
+    if m:
+        t = t[:m.start()] + m.group(1)
+    t = t.replace("?", "").replace("!", "")
+    t = re.sub(r"[^']' ", "", t)
+    t = "".join(ch for ch in t if ch not in "][(){}<>")
+    t = t.replace("--", "")
+    t = t.replace('"', "")
+    t = re.sub(r"(\S)''?", r"\1", t)
+    return t.strip()
 
 
 def party_contains(full, ag):
